@@ -376,7 +376,13 @@ def run_identity_law(ctx):
             ans, same, far = rng.choice([
                 ('x^2+z*n', 'z*n+x^2', 'x^2+z*n+100'), ('rf(x)+a_{1}', 'a_{1}+rf(x)', 'rf(x)+a_{1}+100'), ('d+x', '3*x', 'd+x+100'),
                 ('abs(z)^2+x', 're(z)^2+im(z)^2+x', 'abs(z)^2+x+100'), ('a_{1}*a_{2}+n', 'n+a_{2}*a_{1}', 'a_{1}*a_{2}+n+100'),
-                ('rf(x)*rf(x)', 'rf(x)^2', 'rf(x)^2+100'), ('conj(z)*z', 'abs(z)^2', 'conj(z)*z+100*i'), ('x^n', 'x^(n-1)*x', 'x^n+x^n+100')])
+                ('rf(x)*rf(x)', 'rf(x)^2', 'rf(x)^2+100'), ('conj(z)*z', 'abs(z)^2', 'conj(z)*z+100*i'), ('x^n', 'x^(n-1)*x', 'x^n+x^n+100'),
+                # a real answer missed by an IMAGINARY amount is missed all the same
+                ('x^2+n', 'n+x*x', 'x^2+n+100*i'), ('x^2+n', 'n+x^2', '(x^2+n)*(1+3*i)'), ('d+x', 'x+d', 'd+x+50*i*x'),
+                # author constants that redefine defaults (suppress_warnings) are the values the answer is computed with
+                ('e*x+pi', '1.5*x+3', '2.718281828459045*x+3.141592653589793'), ('e^2*n', '2.25*n', '7.38905609893065*n')])
+            if 'e*x' in ans or 'e^2' in ans:
+                cfg.update(user_constants={'e': 1.5, 'pi': 3.0}, suppress_warnings=True)
             cls = M.FormulaGrader
         elif kind == 'matrix':
             cfg.update(variables=['x', 'v', 'w', 'A'], max_array_dim=2,
@@ -387,7 +393,8 @@ def run_identity_law(ctx):
             cls = M.MatrixGrader
         else:
             cfg = dict(tolerance=tol)
-            ans, same, far = rng.choice([('2^0.5*3', '3*sqrt(2)', '2^0.5*3+100'), ('e^2+pi', 'pi+exp(2)', 'e^2+pi+100'), ('1/3+1/6', '0.5', '100')])
+            ans, same, far = rng.choice([('2^0.5*3', '3*sqrt(2)', '2^0.5*3+100'), ('e^2+pi', 'pi+exp(2)', 'e^2+pi+100'), ('1/3+1/6', '0.5', '100'),
+                                         ('5', '2+3', '5+2*i'), ('5', '10/2', '5*(1+i)')])
             cls = M.NumericalGrader
         try:
             g = cls(answers={'expect': ans, 'grade_decimal': credit}, **cfg)
